@@ -71,8 +71,12 @@ class NodeWorld(World):
             tcfg._bus_conn = proc.bus
             cfgmod = bpns.config
             routes = []
-            for (pat, nxt) in self.params['routes'].get(i, []):
+            for entry in self.params['routes'].get(i, []):
+                (pat, nxt) = entry[:2]
                 raw = dict(next_nodeid='dtn://n%d/' % nxt, address=self.ADDR[nxt], port=4556)
+                if len(entry) > 2 and entry[2] == 'unnamed':
+                    # "use the session that is there": no next hop named
+                    del raw['next_nodeid']
                 routes.append(cfgmod.TxRouteItem(eid_pattern=re.compile(pat), next_nodeid='dtn://n%d/' % nxt, cl_type='tcpcl', raw_config=raw))
             bcfg = cfgmod.Config(node_id='dtn://n%d/' % i,
                                  rx_route_table=[cfgmod.RxRouteItem(eid_pattern=re.compile('^dtn://n%d/.*' % i), action='deliver'),
